@@ -199,6 +199,9 @@ func solveOne(u *UnitResult, o *OblResult, cfg solveConfig) (disagreement string
 		n++
 		go func() {
 			em := solverSpec{"z3-new(ematch)", func(f string, t int) []string {
+				if os.Getenv("GOVC_EMATCH_AUTO") != "" {
+					return []string{"z3-new", fmt.Sprintf("-T:%d", t), "smt.mbqi=false", f}
+				}
 				return []string{"z3-new", fmt.Sprintf("-T:%d", t), "smt.mbqi=false", "smt.auto_config=false", f}
 			}}
 			r := runSolverCtx(ctx, em, file, cfg.timeoutS)
